@@ -93,8 +93,14 @@ impl ReplicationFetcher {
         for (addr, record_type) in incoming_keys {
             let key = addr.to_record_key();
 
-            // Skip if locally stored or already pending fetch
-            if locally_stored_keys.contains_key(&key)
+            // Skip if this version is locally stored or already pending fetch.
+            // A different version (content hash) of a held mutable record is fetched,
+            // so that divergent copies converge.
+            let held_same_version = locally_stored_keys
+                .get(&key)
+                .map(|(_addr, held_type)| held_type == &record_type)
+                .unwrap_or(false);
+            if held_same_version
                 || self
                     .to_be_fetched
                     .contains_key(&(key.clone(), record_type.clone(), holder))
